@@ -92,3 +92,23 @@ class H:
 
     def bounds_text(self) -> List[str]:
         return [p.describe() for p in self.params] + ["pre: " + e for e in self.extra_pre]
+
+
+def bind(run: Callable[..., Tuple[Any, Any]], prefix: Sequence[Any], all_names: Sequence[str],
+         defaults: Dict[str, Any], provided: Sequence[str]) -> Callable[..., Tuple[Any, Any]]:
+    """Positional adapter: ``fn(*values_of_provided)`` -> ``run(*prefix, *full_positional_args)``.
+
+    No dict is touched at call time (dict operations on symbolic values are very slow under CrossHair).
+    """
+    for n in provided:
+        assert n in all_names, n
+    plan = [((list(provided).index(n) if n in provided else None), defaults.get(n)) for n in all_names]
+    for (idx, _), n in zip(plan, all_names):
+        assert idx is not None or n in defaults, "no value for " + n
+    pre = tuple(prefix)
+
+    def fn(*a: Any) -> Tuple[Any, Any]:
+        assert len(a) == len(provided)
+        return run(*pre, *[a[i] if i is not None else c for (i, c) in plan])
+
+    return fn
